@@ -23,6 +23,7 @@ pub const CMP: u8 = 1;
 pub const SLICE: u8 = 2;
 pub const SEG: u8 = 4;
 pub const FRAME: u8 = 8;
+pub const FUNC: u8 = 16;
 
 /// Starts recording on this thread.
 pub fn install() {
@@ -146,6 +147,16 @@ pub(crate) fn operand<T: Queryable>(s: &State<T>) -> Value {
         Data::Value(v) => json!({"kind": "value", "value": to_json(v)}),
         Data::Ref(p) => json!({"kind": "value", "value": to_json(p.inner)}),
         Data::Refs(ps) => json!({"kind": "nodes", "n": ps.len()}),
+        Data::Nothing => json!({"kind": "nothing"}),
+    }
+}
+
+/// Argument or result of a function extension: a value, nothing, or a nodelist (with its values).
+pub(crate) fn fn_operand<T: Queryable>(s: &State<T>) -> Value {
+    match &s.data {
+        Data::Value(v) => json!({"kind": "value", "value": to_json(v)}),
+        Data::Ref(p) => json!({"kind": "value", "value": to_json(p.inner)}),
+        Data::Refs(ps) => json!({"kind": "nodes", "n": ps.len(), "values": ps.iter().map(|p| to_json(p.inner)).collect::<Vec<_>>()}),
         Data::Nothing => json!({"kind": "nothing"}),
     }
 }
